@@ -1683,6 +1683,11 @@ func (v *VMValue) AsDictKey() (string, error) {
 }
 
 func ValueEqual(a *VMValue, b *VMValue, autoConvert bool) bool {
+	return valueEqualVisiting(a, b, autoConvert, nil)
+}
+
+// valueEqualVisiting 中 visiting 记录正在比较的容器对：自引用的数组/字典再次遇到同一对时视为相等，避免无限递归
+func valueEqualVisiting(a *VMValue, b *VMValue, autoConvert bool, visiting map[[2]*VMValue]bool) bool {
 	if a == b {
 		return true
 	}
@@ -1691,6 +1696,16 @@ func ValueEqual(a *VMValue, b *VMValue, autoConvert bool) bool {
 	}
 
 	if a.TypeId == b.TypeId {
+		if a.TypeId == VMTypeArray || a.TypeId == VMTypeDict {
+			pair := [2]*VMValue{a, b}
+			if visiting[pair] {
+				return true
+			}
+			if visiting == nil {
+				visiting = map[[2]*VMValue]bool{}
+			}
+			visiting[pair] = true
+		}
 		switch a.TypeId {
 		case VMTypeArray:
 			arr1, _ := a.ReadArray()
@@ -1699,7 +1714,7 @@ func ValueEqual(a *VMValue, b *VMValue, autoConvert bool) bool {
 				return false
 			}
 			for index, i := range arr1.List {
-				if !ValueEqual(i, arr2.List[index], autoConvert) {
+				if !valueEqualVisiting(i, arr2.List[index], autoConvert, visiting) {
 					return false
 				}
 			}
@@ -1712,7 +1727,7 @@ func ValueEqual(a *VMValue, b *VMValue, autoConvert bool) bool {
 			}
 			isSame := true
 			d1.Dict.Range(func(key string, value *VMValue) bool {
-				isEqual := ValueEqual(value, d2.Dict.MustLoad(key), autoConvert)
+				isEqual := valueEqualVisiting(value, d2.Dict.MustLoad(key), autoConvert, visiting)
 				if !isEqual {
 					isSame = false
 					return false
